@@ -1,0 +1,38 @@
+//go:build verif
+
+package goa
+
+// VerifPatternHook, when set, is called by ValidatePattern at the boundaries
+// of its critical sections: "rlock" (read lock held), "runlock" (read lock
+// released), "compile" (cache miss, pattern compiled, write lock not yet
+// requested), "write" (write lock held, cache entry written) and "match"
+// (regular expression evaluated, no lock held). It only exists in builds
+// tagged "verif" and is used by external verification harnesses to record and
+// to steer interleavings. It must be set before any concurrent use.
+var VerifPatternHook func(point, pattern string)
+
+func verifPatternHook(point, pattern string) {
+	if h := VerifPatternHook; h != nil {
+		h(point, pattern)
+	}
+}
+
+// VerifResetPatterns empties the compiled pattern cache.
+func VerifResetPatterns() {
+	knownPatternsLock.Lock()
+	defer knownPatternsLock.Unlock()
+	for k := range knownPatterns {
+		delete(knownPatterns, k)
+	}
+}
+
+// VerifKnownPatterns returns the keys of the compiled pattern cache.
+func VerifKnownPatterns() []string {
+	knownPatternsLock.RLock()
+	defer knownPatternsLock.RUnlock()
+	keys := make([]string, 0, len(knownPatterns))
+	for k := range knownPatterns {
+		keys = append(keys, k)
+	}
+	return keys
+}
